@@ -126,3 +126,28 @@ func rewriteBlockSize(src []byte) ([]byte, error) {
 	out = append(out, []byte("\nvar (\n\tblockSize   int = blockSizeStock\n\tminParBlock int = minParBlockStock\n)\n\nfunc init() { vhook.RegisterBlockSize(&blockSize, &minParBlock) }\n")...)
 	return out, nil
 }
+
+// rewriteRandImport redirects the math/rand/v2 import of a file to the vrand twin.
+func rewriteRandImport(src []byte) ([]byte, error) {
+	fset, f, err := parse(src)
+	if err != nil {
+		return nil, err
+	}
+	var edits []edit
+	for _, im := range f.Imports {
+		if im.Path.Value != `"math/rand/v2"` {
+			continue
+		}
+		start := fset.Position(im.Pos()).Offset
+		end := fset.Position(im.End()).Offset
+		name := "rand"
+		if im.Name != nil {
+			name = im.Name.Name
+		}
+		edits = append(edits, edit{pos: start, end: end, text: name + ` "` + vrandImport + `"`})
+	}
+	if len(edits) == 0 {
+		return nil, fmt.Errorf("file does not import math/rand/v2 (rand seam cannot be installed)")
+	}
+	return applyEdits(src, edits), nil
+}
